@@ -91,6 +91,17 @@ func (r *streamRun) nonLogFrames() int {
 	return n
 }
 
+func (r *streamRun) hasDone(seq uint64) bool {
+	r.c.mu.Lock()
+	defer r.c.mu.Unlock()
+	for _, f := range r.c.frames {
+		if f.Kind == "qrec" && f.Seq == seq && toStr(f.Body["Type"]) == "done" {
+			return true
+		}
+	}
+	return false
+}
+
 func (r *streamRun) observe() map[string]interface{} {
 	rep := []map[string]interface{}{}
 	recs := []map[string]interface{}{}
@@ -201,6 +212,10 @@ func (r *streamRun) step(st h.Step) map[string]interface{} {
 		h.Die("stream: the agent dispatched %d of %d events", r.e.evrec.count()-evBase, evWant)
 	}
 	poll(2*time.Second, func() bool { return r.nonLogFrames() >= w || r.c.isClosed() })
+	if st.A() == "query" {
+		// the query stream ends with its done record (zero-value records may precede it)
+		poll(3*time.Second, func() bool { return r.hasDone(seq) || r.c.isClosed() })
+	}
 	if st.Int("reg") == 1 {
 		// the handler is registered after the reply has been sent (deferred): wait for it
 		poll(2*time.Second, func() bool { return r.e.ag.VerifHandlers() > r.hand || r.e.ipc.VerifLogHandlers() > r.logh })
